@@ -226,6 +226,8 @@ type depSpec struct {
 	EmptyScope     int  // 1 <scope/>, 2 <scope></scope> (only when Scope == 0)
 	CommentInside  int  // k > 0: a comment before the (k-1)th child of the <dependency>
 	EmptyExcl      bool // <exclusions/> (only when Exclusions == 0)
+	// added by the second widening round
+	PIBefore bool // a processing instruction (<?SORTPOM IGNORE?>) in front of the <dependency>
 }
 
 var depSpecGen = rapid.Custom(func(t *rapid.T) depSpec {
@@ -256,7 +258,7 @@ var depSpecGen = rapid.Custom(func(t *rapid.T) depSpec {
 	}
 	if rapid.IntRange(0, 3).Draw(t, "pad") == 3 {
 		d.PadChild = rapid.IntRange(0, 7).Draw(t, "padChild")
-		d.PadStyle = rapid.IntRange(1, 3).Draw(t, "padStyle")
+		d.PadStyle = rapid.IntRange(1, 5).Draw(t, "padStyle")
 	}
 	d.CommentBefore = rapid.IntRange(0, 4).Draw(t, "commentBefore") == 4
 	d.CommentedOut = rapid.IntRange(0, 9).Draw(t, "commentedOut") == 9
@@ -272,10 +274,157 @@ var depSpecGen = rapid.Custom(func(t *rapid.T) depSpec {
 	if d.Exclusions == 0 {
 		d.EmptyExcl = rapid.IntRange(0, 9).Draw(t, "emptyExclusions") == 9
 	}
+	d.PIBefore = rapid.IntRange(0, 11).Draw(t, "processingInstructionBefore") == 11
 	return d
 })
 
-const pomSections = 8
+const (
+	pomSections    = 15
+	pomOldSections = 8 // the sections of the first rounds: present in two cases of three
+)
+
+// ---- free content of the sections that are not the dependencies block (second widening round) ----
+//
+// The element names under <properties> and under a plugin's <configuration> are not fixed by the POM
+// schema: any XML name may occur there, among them names that mean something elsewhere (HTML element
+// names, the names the dependency extraction looks for). Texts and attributes are free as well.
+
+// classes of element names; class 0 is the plain one (shrinking moves towards it)
+const (
+	ncPlain = iota
+	ncHTMLVoid
+	ncHTMLOther
+	ncPomLike
+	ncPunctuated
+	ncCaseVariant
+	nameClassCount
+)
+
+var nameClassLabels = []string{"plain", "html_void_element", "html_other_element", "pom_vocabulary", "punctuated", "case_variant_of_html_void_element"}
+
+var cfgNames = [nameClassCount][]string{
+	ncPlain: {"source", "target", "encoding", "skip", "outputDirectory", "argLine", "includes", "include", "excludes", "exclude",
+		"compilerArgs", "arg", "mainClass", "archive", "manifest", "descriptorRefs", "descriptorRef", "rules", "rule", "limits", "limit",
+		"transformers", "transformer", "resources", "resource", "filters", "filter", "tags", "tag", "name", "value", "echo", "copy", "mkdir"},
+	// HTML elements without content model (HTML 4 and 5) and the plural wrappers plug-ins use around them
+	// (maven-javadoc-plugin: <links><link>..</link></links>, <tags><tag>; maven-antrun: <input/>, <param name= value=/>)
+	ncHTMLVoid: {"link", "links", "param", "params", "base", "meta", "input", "col", "cols", "frame", "area", "br", "hr", "img",
+		"basefont", "isindex", "embed", "track", "wbr", "keygen", "command", "menuitem"},
+	ncHTMLOther: {"p", "li", "ul", "td", "tr", "th", "option", "body", "head", "html", "title", "a", "b", "i", "table", "form", "script",
+		"style", "div", "span", "dd", "dt", "tbody", "colgroup"},
+	// names the extraction itself looks for, nested where they do not describe a dependency of the project
+	ncPomLike: {"dependencies", "dependency", "dependencySets", "dependencySet", "artifactItems", "artifactItem", "groupId", "artifactId",
+		"scope", "version", "project", "exclusions", "bannedDependencies", "dependencyManagement"},
+	ncPunctuated:  {"maven.compiler.source", "project.build.sourceEncoding", "my-prop", "my_prop", "x509", "_private", "v1.2-beta", "a"},
+	ncCaseVariant: {"Link", "BR", "Param", "META", "Img", "Base"},
+}
+
+var htmlVoid = map[string]bool{"link": true, "param": true, "base": true, "meta": true, "input": true, "col": true, "frame": true,
+	"area": true, "br": true, "hr": true, "img": true, "basefont": true, "isindex": true, "embed": true, "track": true, "wbr": true,
+	"keygen": true, "command": true, "menuitem": true, "source": true}
+
+// texts of free elements; index 0-2 are the plain ones. All are well-formed XML character data.
+var xmlTexts = []struct{ label, text string }{
+	{"", "1.8"},
+	{"", "true"},
+	{"", "${project.build.directory}/generated"},
+	{"text:url", "https://docs.example.org/javase/8/docs/api/"},
+	{"text:predefined_entities", "-Xlint:all &amp;&amp; a &lt; b &gt; c &quot;q&quot; &apos;s&apos;"},
+	{"text:url_with_escaped_ampersand", "https://ci.example.org/job?name=app&amp;branch=main"},
+	{"text:character_reference", "&#169; 2020 Example &#x2014; all rights reserved"},
+	{"text:cdata_holding_a_dependencies_element", "<![CDATA[<dependencies><dependency><groupId>" + decoyScript + "</groupId><artifactId>in-cdata</artifactId></dependency></dependencies> & more]]>"},
+	{"text:cdata_between_text", "before <![CDATA[a < b && c > d]]> after"},
+	{"text:non_ascii", "J\u00fcrgen M\u00fcller \u2014 \u6784\u5efa\u6a21\u5757 \u2713"},
+	{"text:multi_line", "first line\n        second line\n    third"},
+	{"text:unescaped_gt_and_quotes", "a > b \"quoted\" 'single' ]] >"},
+	{"text:comment_inside_text", "value<!-- <scope>test</scope> -->more"},
+}
+
+// attributes of free elements (index+1 is drawn; 0 = none)
+var xmlAttrs = []struct{ label, text string }{
+	{"attr:combine_children", ` combine.children="append"`},
+	{"attr:single_quoted", ` combine.self='override'`},
+	{"attr:implementation", ` implementation="` + decoyPlugin + `.Impl"`},
+	{"attr:with_entities", ` message="a &amp; b &lt;c&gt; &quot;d&quot;"`},
+	{"attr:with_gt_and_other_quote", ` if="x > y" unless='say "no"'`},
+	{"attr:id", ` id="cfg-1"`},
+	{"attr:several_on_two_lines", " file=\"a.txt\"\n        todir=\"out\""},
+	{"attr:namespaced", ` xml:space="preserve"`},
+	{"attr:whitespace_around_equals", ` name = "x"`},
+}
+
+// xnode is one free element
+type xnode struct {
+	Class  int
+	Name   int
+	Form   int // 0 <a>text</a>, 1 element content, 2 <a/>, 3 <a></a>, 4 mixed content (text, children, text)
+	Text   int
+	Attr   int  // 0 = none
+	TagPad bool // white space before the '>' of the start and of the end tag
+	Kids   []xnode
+}
+
+func (x xnode) name() string {
+	names := cfgNames[x.Class%nameClassCount]
+	return names[x.Name%len(names)]
+}
+
+var nameClassGen = rapid.SampledFrom([]int{ncPlain, ncPlain, ncPlain, ncPlain, ncHTMLVoid, ncHTMLVoid, ncHTMLVoid, ncHTMLOther, ncPomLike, ncPomLike, ncPunctuated, ncCaseVariant})
+
+// xnodeGen: depth = levels of children allowed below this element (0: a leaf, as under <properties>)
+func xnodeGen(depth int) *rapid.Generator[xnode] {
+	return rapid.Custom(func(t *rapid.T) xnode {
+		x := xnode{}
+		x.Class = nameClassGen.Draw(t, "nameClass")
+		x.Name = rapid.IntRange(0, 33).Draw(t, "elementName")
+		forms := []int{0, 0, 0, 0, 2, 3}
+		if depth > 0 {
+			forms = []int{0, 0, 0, 1, 1, 1, 2, 3, 4}
+		}
+		x.Form = rapid.SampledFrom(forms).Draw(t, "contentForm")
+		if rapid.IntRange(0, 2).Draw(t, "specialText") == 2 {
+			x.Text = rapid.IntRange(0, len(xmlTexts)-1).Draw(t, "text")
+		} else {
+			x.Text = rapid.IntRange(0, 2).Draw(t, "plainText")
+		}
+		if rapid.IntRange(0, 4).Draw(t, "hasAttribute") == 4 {
+			x.Attr = rapid.IntRange(1, len(xmlAttrs)).Draw(t, "attribute")
+		}
+		x.TagPad = rapid.IntRange(0, 9).Draw(t, "spaceInsideTags") == 9
+		if x.Form == 1 || x.Form == 4 {
+			x.Kids = rapid.SliceOfN(xnodeGen(depth-1), 1, 3).Draw(t, "children")
+		}
+		return x
+	})
+}
+
+// pluginSpec is one additional plug-in with a free <configuration>
+type pluginSpec struct {
+	Where  int  // 0 build/plugins, 1 build/pluginManagement/plugins, 2 reporting/plugins, 3 profiles/profile/build/plugins
+	Exec   int  // 0 configuration under <plugin>, 1 under executions/execution, 2 both
+	PI     bool // <?m2e ignore?> in the execution
+	Deps   bool // the plug-in has <dependencies> of its own
+	Config []xnode
+}
+
+var pluginSpecGen = rapid.Custom(func(t *rapid.T) pluginSpec {
+	pl := pluginSpec{}
+	pl.Where = rapid.SampledFrom([]int{0, 0, 0, 1, 2, 3}).Draw(t, "pluginWhere")
+	pl.Exec = rapid.SampledFrom([]int{0, 0, 1, 2}).Draw(t, "pluginExecutions")
+	pl.PI = rapid.IntRange(0, 5).Draw(t, "m2eInstruction") == 5
+	pl.Deps = rapid.IntRange(0, 4).Draw(t, "pluginOwnDependencies") == 4
+	pl.Config = rapid.SliceOfN(xnodeGen(2), 1, 4).Draw(t, "configuration")
+	return pl
+})
+
+// host sections of the free content: when such a section is not placed by Place, Fallback places it
+const (
+	hostProperties = iota
+	hostBuild
+	hostReporting
+	hostProfiles
+	hostCount
+)
 
 type pomSpec struct {
 	Prolog     int
@@ -290,6 +439,12 @@ type pomSpec struct {
 	OmitBlock  bool // only honoured when there is no dependency
 	EndComment bool
 	Deps       []depSpec
+	// added by the second widening round (zero value = the plain variant)
+	BOM      bool         // the file starts with a UTF-8 byte order mark
+	Texts    []int        // texts of the descriptive sections (index into xmlTexts)
+	Props    []xnode      // additional properties with free names
+	Plugins  []pluginSpec // additional plug-ins with free configuration
+	Fallback []int        // per host section: 1 before / 2 after the dependencies block, used when Place leaves the host out
 }
 
 func drawPomSpec(t *rapid.T, maxDeps int) pomSpec {
@@ -299,13 +454,23 @@ func drawPomSpec(t *rapid.T, maxDeps int) pomSpec {
 	p.Indent = rapid.IntRange(0, 2).Draw(t, "indent")
 	p.CRLF = rapid.IntRange(0, 3).Draw(t, "crlf") == 3
 	p.OneLine = rapid.IntRange(0, 7).Draw(t, "oneLine") == 7
-	p.Place = rapid.SliceOfN(rapid.IntRange(0, 2), pomSections, pomSections).Draw(t, "sections")
+	p.Place = rapid.SliceOfN(rapid.IntRange(0, 2), pomOldSections, pomOldSections).Draw(t, "sections")
 	p.Reverse = rapid.IntRange(0, 2).Draw(t, "sectionOrder") == 2
 	p.MgmtTwo = rapid.Bool().Draw(t, "mgmtTwo")
 	p.PluginDeps = rapid.Bool().Draw(t, "pluginDeps")
 	p.OmitBlock = rapid.Bool().Draw(t, "omitDependenciesElement")
 	p.EndComment = rapid.IntRange(0, 5).Draw(t, "trailingComment") == 5
 	p.Deps = rapid.SliceOfN(depSpecGen, 0, maxDeps).Draw(t, "dependencies")
+	p.Place = append(p.Place, rapid.SliceOfN(rapid.SampledFrom([]int{0, 0, 0, 1, 1, 2}), pomSections-pomOldSections, pomSections-pomOldSections).Draw(t, "moreSections")...)
+	p.BOM = rapid.IntRange(0, 11).Draw(t, "byteOrderMark") == 11
+	p.Texts = rapid.SliceOfN(rapid.SampledFrom([]int{0, 0, 0, 3, 4, 5, 6, 7, 8, 9, 10, 11, 12}), 8, 8).Draw(t, "sectionTexts")
+	if rapid.IntRange(0, 2).Draw(t, "freeProperties") == 2 {
+		p.Props = rapid.SliceOfN(xnodeGen(0), 1, 4).Draw(t, "properties")
+	}
+	if rapid.IntRange(0, 1).Draw(t, "freePlugins") == 1 {
+		p.Plugins = rapid.SliceOfN(pluginSpecGen, 1, 3).Draw(t, "plugins")
+	}
+	p.Fallback = rapid.SliceOfN(rapid.IntRange(1, 2), hostCount, hostCount).Draw(t, "hostPlacement")
 	return p
 }
 
@@ -334,6 +499,11 @@ func (w *xw) leafPad(depth int, name, text string, style int) {
 		text = w.nl + strings.Repeat(w.unit, depth+1) + text + w.nl + strings.Repeat(w.unit, depth)
 	case 3:
 		text = "\t" + text
+	case 4:
+		text = "<![CDATA[" + text + "]]>"
+	case 5:
+		w.line(depth, "<"+name+" >"+text+"</"+name+"\t>")
+		return
 	}
 	w.line(depth, "<"+name+">"+text+"</"+name+">")
 }
@@ -373,6 +543,149 @@ func renderPom(p pomSpec, n *namer) pomOut {
 	feats := map[string]bool{}
 	var out pomOut
 
+	if p.BOM {
+		w.b.WriteString("\uFEFF")
+		feats["utf8_byte_order_mark"] = true
+	}
+	phase := "before" // which side of the dependencies block is being written
+	tx := func(k int) string {
+		i := 0
+		if k < len(p.Texts) {
+			i = p.Texts[k] % len(xmlTexts)
+		}
+		if xmlTexts[i].label != "" {
+			feats[xmlTexts[i].label] = true
+		}
+		return xmlTexts[i].text
+	}
+	// node writes one free element and records what it is
+	var node func(depth int, x xnode)
+	node = func(depth int, x xnode) {
+		name := x.name()
+		feats["free_name:"+nameClassLabels[x.Class%nameClassCount]] = true
+		attr, pad := "", ""
+		if x.Attr > 0 {
+			a := xmlAttrs[(x.Attr-1)%len(xmlAttrs)]
+			attr = a.text
+			feats[a.label] = true
+		}
+		if x.TagPad {
+			pad = " "
+			feats["white_space_inside_tags"] = true
+		}
+		text := xmlTexts[x.Text%len(xmlTexts)]
+		switch name { // keep the vocabulary of the extraction meaningful where it is nested
+		case "groupId":
+			text = xmlTexts[0]
+			text.text = decoyPlugin
+		case "artifactId":
+			text = xmlTexts[0]
+			text.text = "configured-artifact"
+		case "scope":
+			text = xmlTexts[0]
+			text.text = "test"
+		}
+		hasContent := x.Form == 0 || x.Form == 1 || x.Form == 4
+		if htmlVoid[strings.ToLower(name)] {
+			if hasContent {
+				feats["html_void_name_with_content_"+phase+"_dependencies"] = true
+			} else {
+				feats["html_void_name_empty_element"] = true
+			}
+		}
+		if (name == "dependencies" || name == "dependency") && x.Form == 1 {
+			feats["free_dependencies_element_nested_"+phase+"_dependencies"] = true
+		}
+		start, end := "<"+name+attr+pad+">", "</"+name+pad+">"
+		switch x.Form {
+		case 0:
+			if text.label != "" {
+				feats[text.label] = true
+			}
+			w.line(depth, start+text.text+end)
+		case 1:
+			w.line(depth, start)
+			for _, k := range x.Kids {
+				node(depth+1, k)
+			}
+			w.line(depth, end)
+		case 2:
+			w.line(depth, "<"+name+attr+pad+"/>")
+			feats["free_self_closing_element"] = true
+		case 3:
+			w.line(depth, start+end)
+			feats["free_empty_element_pair"] = true
+		default:
+			if text.label != "" {
+				feats[text.label] = true
+			}
+			feats["free_mixed_content"] = true
+			w.line(depth, start+text.text)
+			for _, k := range x.Kids {
+				node(depth+1, k)
+			}
+			w.line(depth, "tail"+end)
+		}
+	}
+	// plugins writes the additional plug-ins destined for one place
+	pluginNo := 0
+	plugins := func(depth, where int) {
+		for _, pl := range p.Plugins {
+			if pl.Where != where {
+				continue
+			}
+			pluginNo++
+			feats["free_plugin_configuration:"+[]string{"build", "pluginManagement", "reporting", "profile"}[where%4]] = true
+			w.open(depth, "plugin")
+			w.coords(depth+1, decoyPlugin, fmt.Sprintf("free-maven-plugin-%d", pluginNo), "3.2.0")
+			if pl.Exec > 0 && where != 2 {
+				w.open(depth+1, "executions")
+				w.open(depth+2, "execution")
+				w.leaf(depth+3, "id", "default-run")
+				if pl.PI {
+					w.line(depth+3, "<?m2e ignore?>")
+					feats["processing_instruction"] = true
+				}
+				w.leaf(depth+3, "phase", "package")
+				w.open(depth+3, "goals")
+				w.leaf(depth+4, "goal", "run")
+				w.close(depth+3, "goals")
+				w.open(depth+3, "configuration")
+				for _, x := range pl.Config {
+					node(depth+4, x)
+				}
+				w.close(depth+3, "configuration")
+				w.close(depth+2, "execution")
+				w.close(depth+1, "executions")
+				feats["free_configuration_in_execution"] = true
+			}
+			if pl.Exec != 1 || where == 2 {
+				w.open(depth+1, "configuration")
+				for _, x := range pl.Config {
+					node(depth+2, x)
+				}
+				w.close(depth+1, "configuration")
+			}
+			if pl.Deps && where != 2 {
+				feats["plugin_with_dependencies"] = true
+				w.open(depth+1, "dependencies")
+				w.foreignDependency(depth+2, decoyPlugin, "free-plugin-extension")
+				w.close(depth+1, "dependencies")
+			}
+			w.close(depth, "plugin")
+		}
+	}
+	hasPlugins := func(wheres ...int) bool {
+		for _, pl := range p.Plugins {
+			for _, wh := range wheres {
+				if pl.Where == wh {
+					return true
+				}
+			}
+		}
+		return false
+	}
+
 	switch p.Prolog {
 	case 1:
 		w.line(0, `<?xml version="1.0" encoding="UTF-8"?>`)
@@ -408,6 +721,10 @@ func renderPom(p pomSpec, n *namer) pomOut {
 			w.open(1, "properties")
 			w.leaf(2, "java.version", "11")
 			w.leaf(2, "lib.version", "3.1.4")
+			for _, x := range p.Props {
+				node(2, x)
+				feats["free_property_names"] = true
+			}
 			w.close(1, "properties")
 		}},
 		{"dependencyManagement", func() {
@@ -432,7 +749,15 @@ func renderPom(p pomSpec, n *namer) pomOut {
 				w.close(4, "dependencies")
 			}
 			w.close(3, "plugin")
+			plugins(3, 0)
 			w.close(2, "plugins")
+			if hasPlugins(1) {
+				w.open(2, "pluginManagement")
+				w.open(3, "plugins")
+				plugins(4, 1)
+				w.close(3, "plugins")
+				w.close(2, "pluginManagement")
+			}
 			w.close(1, "build")
 		}},
 		{"profiles", func() {
@@ -442,6 +767,13 @@ func renderPom(p pomSpec, n *namer) pomOut {
 			w.open(3, "dependencies")
 			w.foreignDependency(4, decoyProfile, "profile-only")
 			w.close(3, "dependencies")
+			if hasPlugins(3) {
+				w.open(3, "build")
+				w.open(4, "plugins")
+				plugins(5, 3)
+				w.close(4, "plugins")
+				w.close(3, "build")
+			}
 			w.close(2, "profile")
 			w.close(1, "profiles")
 		}},
@@ -456,6 +788,106 @@ func renderPom(p pomSpec, n *namer) pomOut {
 		{"comment_section", func() {
 			w.comment(1, "<dependencies><dependency><groupId>"+decoyScript+"</groupId><artifactId>in-comment</artifactId></dependency></dependencies>")
 		}},
+		// sections added by the second widening round; their texts are drawn (p.Texts)
+		{"description_block", func() {
+			w.leaf(1, "name", tx(0))
+			w.leaf(1, "description", tx(1))
+			w.leaf(1, "url", "https://www.example.org/self-app")
+			w.leaf(1, "inceptionYear", "2019")
+			w.open(1, "prerequisites")
+			w.leaf(2, "maven", "3.0.5")
+			w.close(1, "prerequisites")
+		}},
+		{"people", func() {
+			w.open(1, "organization")
+			w.leaf(2, "name", tx(2))
+			w.leaf(2, "url", "https://www.example.org")
+			w.close(1, "organization")
+			w.open(1, "licenses")
+			w.open(2, "license")
+			w.leaf(3, "name", "Apache License, Version 2.0")
+			w.leaf(3, "url", "https://www.apache.org/licenses/LICENSE-2.0.txt")
+			w.leaf(3, "distribution", "repo")
+			w.leaf(3, "comments", tx(3))
+			w.close(2, "license")
+			w.close(1, "licenses")
+			w.open(1, "developers")
+			w.open(2, "developer")
+			w.leaf(3, "id", "dev1")
+			w.leaf(3, "name", tx(4))
+			w.leaf(3, "email", "dev1@example.org")
+			w.open(3, "roles")
+			w.leaf(4, "role", "architect")
+			w.leaf(4, "role", "developer")
+			w.close(3, "roles")
+			w.line(3, "<properties/>")
+			w.close(2, "developer")
+			w.close(1, "developers")
+		}},
+		{"scm_and_management", func() {
+			w.open(1, "scm")
+			w.leaf(2, "connection", "scm:git:https://git.example.org/self-app.git")
+			w.leaf(2, "url", tx(5))
+			w.leaf(2, "tag", "HEAD")
+			w.close(1, "scm")
+			w.open(1, "issueManagement")
+			w.leaf(2, "system", "jira")
+			w.leaf(2, "url", "https://issues.example.org/browse/APP?x=1&amp;y=2")
+			w.close(1, "issueManagement")
+			w.open(1, "distributionManagement")
+			w.open(2, "repository")
+			w.leaf(3, "id", "releases")
+			w.leaf(3, "url", "https://repo.example.org/releases")
+			w.close(2, "repository")
+			w.open(2, "relocation")
+			w.coords(3, decoySelf, "self-app-moved", "2.0")
+			w.leaf(3, "message", tx(6))
+			w.close(2, "relocation")
+			w.close(1, "distributionManagement")
+		}},
+		{"modules", func() {
+			w.open(1, "modules")
+			w.leaf(2, "module", "module-a")
+			w.leaf(2, "module", "module-b")
+			w.close(1, "modules")
+		}},
+		{"reporting", func() {
+			w.open(1, "reporting")
+			w.leaf(2, "outputDirectory", "${project.build.directory}/site")
+			w.open(2, "plugins")
+			w.open(3, "plugin")
+			w.coords(4, decoyPlugin, "some-report-plugin", "3.0")
+			w.open(4, "reportSets")
+			w.open(5, "reportSet")
+			w.open(6, "reports")
+			w.leaf(7, "report", "dependencies")
+			w.leaf(7, "report", "scm")
+			w.close(6, "reports")
+			w.close(5, "reportSet")
+			w.close(4, "reportSets")
+			w.close(3, "plugin")
+			plugins(3, 2)
+			w.close(2, "plugins")
+			w.close(1, "reporting")
+		}},
+		{"plugin_repositories", func() {
+			w.open(1, "pluginRepositories")
+			w.open(2, "pluginRepository")
+			w.leaf(3, "id", "plugins")
+			w.leaf(3, "name", tx(7))
+			w.leaf(3, "url", "https://repo.example.org/plugins")
+			w.open(3, "snapshots")
+			w.leaf(4, "enabled", "false")
+			w.close(3, "snapshots")
+			w.close(2, "pluginRepository")
+			w.close(1, "pluginRepositories")
+		}},
+		{"processing_instruction", func() {
+			w.line(1, "<?SORTPOM IGNORE?>")
+			w.comment(1, "kept as written")
+			w.line(1, "<?SORTPOM RESUME?>")
+			feats["processing_instruction"] = true
+		}},
 	}
 	if len(sections) != pomSections {
 		panic("c19: pomSections out of date")
@@ -467,9 +899,34 @@ func renderPom(p pomSpec, n *namer) pomOut {
 			order[i] = len(sections) - 1 - i
 		}
 	}
+	fallback := func(h int) int {
+		if h < len(p.Fallback) && p.Fallback[h] == 2 {
+			return 2
+		}
+		return 1
+	}
 	place := func(i int) int {
-		if i < len(p.Place) {
+		if i < len(p.Place) && p.Place[i] != 0 {
 			return p.Place[i]
+		}
+		// a host section that Place leaves out is written all the same when free content was drawn for it
+		switch sections[i].name {
+		case "properties":
+			if len(p.Props) > 0 {
+				return fallback(hostProperties)
+			}
+		case "build_plugins":
+			if hasPlugins(0, 1) {
+				return fallback(hostBuild)
+			}
+		case "reporting":
+			if hasPlugins(2) {
+				return fallback(hostReporting)
+			}
+		case "profiles":
+			if hasPlugins(3) {
+				return fallback(hostProfiles)
+			}
 		}
 		return 0
 	}
@@ -480,6 +937,7 @@ func renderPom(p pomSpec, n *namer) pomOut {
 		}
 	}
 
+	phase = "inside"
 	if len(p.Deps) == 0 && p.OmitBlock {
 		feats["no_dependencies_element"] = true
 	} else {
@@ -503,6 +961,10 @@ func renderPom(p pomSpec, n *namer) pomOut {
 				dep = Dep{Group: n.reuse.Group, Artifact: n.reuse.Artifact}
 				n.reuse = nil
 				feats["dependency_declared_in_both_manifests"] = true
+			}
+			if ds.PIBefore {
+				w.line(2, "<?SORTPOM IGNORE?>")
+				feats["processing_instruction_between_dependencies"] = true
 			}
 			if ds.CommentBefore {
 				w.comment(2, "about "+dep.Artifact)
@@ -571,7 +1033,7 @@ func renderPom(p pomSpec, n *namer) pomOut {
 					style := 0
 					if ds.PadStyle > 0 && ds.PadChild%len(children) == ci {
 						style = ds.PadStyle
-						feats["padded_text"] = true
+						feats[[]string{"padded_text", "padded_text", "padded_text", "padded_text", "text_in_cdata_section", "white_space_inside_tags"}[style%6]] = true
 					}
 					w.leafPad(3, c.name, c.text, style)
 					continue
@@ -598,6 +1060,7 @@ func renderPom(p pomSpec, n *namer) pomOut {
 		}
 		w.close(1, "dependencies")
 	}
+	phase = "after"
 	for _, i := range order {
 		if place(i) == 2 {
 			sections[i].write()
@@ -1257,6 +1720,11 @@ func genProject(t *rapid.T) ProjCase {
 		c.Files[path] = p.Text
 		c.Manifests = append(c.Manifests, Manifest{Path: path, Entries: p.Deps})
 		feats["pom"] = true
+		for _, f := range p.Features { // the free content of the other sections reaches the report checks as well
+			if strings.HasPrefix(f, "html_void_name_") || strings.HasPrefix(f, "free_name:") || strings.HasPrefix(f, "free_dependencies_element_") || f == "utf8_byte_order_mark" || f == "text_in_cdata_section" {
+				feats["pom:"+f] = true
+			}
+		}
 	}
 	addGradle := func(path string, max int, noBlock bool) {
 		spec := drawGradleSpec(t, max)
@@ -1811,13 +2279,14 @@ func tail(s string, n int) string {
 
 func init() {
 	pbt.SetProperty("C19")
-	pbt.Describe("rapid-generated manifests with ground truth. pom.xml: prolog variants, namespaces, 0-10 <dependency> with children in usual or shuffled order (version incl. ${property}, scope incl. an empty <scope/> element, type, optional, classifier, exclusions with own groupId/artifactId, empty <exclusions/>), artifact ids shared by two group ids, artifact ids with dots and underscores, comments between dependencies and between the children of one, commented-out dependencies and children, and parent / properties / dependencyManagement / build-plugins(-with-dependencies) / profiles / repositories before or after; one case in four analyses the same file twice. build.gradle: 0-8 entries in single-quoted, double-quoted, parenthesised (both quotes, with exclude / property / because+version closures) and trailing-closure string notation, project()/fileTree()/files()/gradleApi()/libs.x/testFixtures() entries (must be skipped), statements that are no entries (def, if block, constraints block; an entry nested in them: extract-or-skip), map notation / ${} interpolation / platform() / enforcedPlatform() (extract-or-skip), 16 configuration names incl. plugin- and user-defined ones, comments, entries ending in ';' or sharing a line, `dependencies{`, a one-line block, no dependencies block at all, 20 kinds of surrounding blocks incl. dependencyManagement (imports / dependencies) / dependencyLocking / subprojects; one case in three analyses a second script (one other dependency / no dependencies block / the same script) in the same process without a reset and re-reads the first result. Projects: one or two manifests (pom, gradle, pom+pom, pom+gradle, gradle+gradle, a script without dependencies block next to one with; the second manifest may re-declare a dependency of the first) plus 0-5 Java files (main and test, classes, interfaces, two top-level types in one file, a source directory outside src/main/java, optionally a .gitignore naming single files) importing a drawn subset of the declared groups by exact-package, sub-package, wildcard and static imports, plus unrelated imports. Oracles: extraction = exactly the declared (group, artifact, scope/configuration) list in order; unused report (in-process pipeline of the deps command asked twice on one model, and the binary of analysis/dep with -p/--path/default/absolute path) = exactly the sub-list whose group id occurs in no import. Non-trivial: extraction: >= 3 dependencies and (pom) a decoy dependency section / exclusions / shuffled children, (gradle) >= 2 notations; unused report: >= 3 declared dependencies, used and unused ones interleaved, for gradle >= 2 notations. Distinct = hash of the case.",
+	pbt.Describe("rapid-generated manifests with ground truth. pom.xml: prolog variants, namespaces, 0-10 <dependency> with children in usual or shuffled order (version incl. ${property}, scope incl. an empty <scope/> element, type, optional, classifier, exclusions with own groupId/artifactId, empty <exclusions/>), artifact ids shared by two group ids, artifact ids with dots and underscores, comments between dependencies and between the children of one, commented-out dependencies and children, a child text wrapped in a CDATA section or written with white space inside its tags, a processing instruction between two dependencies, an optional UTF-8 byte order mark, and parent / properties / dependencyManagement / build-plugins(-with-dependencies) / profiles / repositories / name+description+prerequisites / organization+licenses+developers / scm+issueManagement+distributionManagement(with relocation coordinates) / modules / reporting / pluginRepositories / processing instructions before or after. The content of those other sections is drawn as well: texts (predefined entities, character references, CDATA sections incl. one holding a <dependencies> element, non-ASCII UTF-8, several lines, unescaped > and quotes, a comment inside text), 0-4 additional properties and 0-3 additional plug-ins (build/plugins, build/pluginManagement, reporting, a profile's build; configuration under the plug-in and/or an execution, <?m2e?> instruction, own <dependencies>) whose <configuration> is a free element tree of depth <= 3 (text, element, self-closing, empty and mixed content; attributes in 9 forms; white space inside tags) with element names from six classes: plain plug-in parameters, HTML void elements (link, param, base, meta, input, col, br, img ... and their plural wrappers, as in the maven-javadoc-plugin's <links><link>), other HTML elements, the vocabulary of the extraction itself (dependencies, dependency, groupId, artifactId, scope, artifactItems ...), punctuated names, case variants (Link, BR); one case in four analyses the same file twice. build.gradle: 0-8 entries in single-quoted, double-quoted, parenthesised (both quotes, with exclude / property / because+version closures) and trailing-closure string notation, project()/fileTree()/files()/gradleApi()/libs.x/testFixtures() entries (must be skipped), statements that are no entries (def, if block, constraints block; an entry nested in them: extract-or-skip), map notation / ${} interpolation / platform() / enforcedPlatform() (extract-or-skip), 16 configuration names incl. plugin- and user-defined ones, comments, entries ending in ';' or sharing a line, `dependencies{`, a one-line block, no dependencies block at all, 20 kinds of surrounding blocks incl. dependencyManagement (imports / dependencies) / dependencyLocking / subprojects; one case in three analyses a second script (one other dependency / no dependencies block / the same script) in the same process without a reset and re-reads the first result. Projects: one or two manifests (pom, gradle, pom+pom, pom+gradle, gradle+gradle, a script without dependencies block next to one with; the second manifest may re-declare a dependency of the first) plus 0-5 Java files (main and test, classes, interfaces, two top-level types in one file, a source directory outside src/main/java, optionally a .gitignore naming single files) importing a drawn subset of the declared groups by exact-package, sub-package, wildcard and static imports, plus unrelated imports. Oracles: extraction = exactly the declared (group, artifact, scope/configuration) list in order; unused report (in-process pipeline of the deps command asked twice on one model, and the binary of analysis/dep with -p/--path/default/absolute path) = exactly the sub-list whose group id occurs in no import. Non-trivial: extraction: >= 3 dependencies and (pom) a decoy dependency section / exclusions / shuffled children, (gradle) >= 2 notations; unused report: >= 3 declared dependencies, used and unused ones interleaved, for gradle >= 2 notations. Distinct = hash of the case.",
 		"group ids are drawn so that none is a substring of another, of a decoy group or of an unrelated import (re-checked inside the oracle)",
 		"map notation, \"g:a:${v}\", platform('g:a:v') and enforcedPlatform('g:a:v') may be extracted (correctly) or skipped; project()/fileTree()/files()/gradleApi()/libs.x/testFixtures(project()) must be skipped",
 		"a build.gradle rejected by the shipped Groovy parser (syntax error listener) is skipped and counted",
 		"with two manifests only the order inside each manifest is asserted (any interleaving of the two lists is accepted); a dependency declared in both manifests is expected once per declaration",
 		"dependencies blocks nested in buildscript / dependencyManagement are not the project's dependencies block: their entries must not be extracted",
-		"comments are placed between elements, never inside the text of groupId/artifactId/scope; XML encodings other than UTF-8 are not generated")
+		"comments are placed between elements, never inside the text of groupId/artifactId/scope; XML encodings other than UTF-8 are not generated",
+		"free sections of a pom.xml stay well-formed XML 1.0 without DTD: only the five predefined entities and numeric character references, no XHTML entities (&nbsp;), no duplicate top-level sections; mixed content only inside a plug-in's <configuration>")
 	// quick counts are per shard; settings.json runs the quick tier in two shards
 	pbt.Register("maven", 250, 3000, genPomCase, checkPom)
 	pbt.Register("gradle", 80, 600, genGradleCase, checkGradle)
